@@ -25,7 +25,9 @@ pub fn gen_text(rng: &mut Rng) -> String {
     let weights = [14u32, 24, 26, 18, 10, 8];
     // 2 % are long (60..260 lines): an implementation may batch its indexing (say 64 lines per
     // lock acquisition), and a workload that never exceeds the batch never leaves the first batch
-    let terms = if rng.chance(1, 50) {
+    let terms = if rng.chance(1, 500) {
+        rng.range_usize(1030, 1100)
+    } else if rng.chance(1, 50) {
         rng.range_usize(60, 260)
     } else if rng.chance(1, 25) {
         rng.range_usize(6, 11)
